@@ -181,9 +181,9 @@ package process
 //@    (is(f, PrintForm) ==> unKid(PrintForm(f).continuation_e))
 
 //@ contract interface Form.typecheckForm(self, gamma, sh, providerType, env, sigma, globalEnv)
-//@   requires uninit(self)
+//@   requires[C05] uninit(self)
 //@   requires[C09] formOK(self) && gamma != nil && globalEnv != nil
-//@   ensures C05.lin: result == nil ==> lin(self, old(dom(gamma)), sh)
+//@   ensures[C05] C05.lin: result == nil ==> lin(self, old(dom(gamma)), sh)
 //@   decreases[C09] fsize(self)
 
 //@ contract copyContext
@@ -192,23 +192,23 @@ package process
 //@   safety C09
 
 //@ contract (*CaseForm).typecheckForm
-//@   loop 1 invariant dom(gammaNameTypesCtx) == old(dom(gammaNameTypesCtx))
-//@   loop 1 invariant (forall k int :: 0 <= k && k <= idx ==> lin(p.branches[k].continuation_e, old(dom(gammaNameTypesCtx)), addr(p.branches[k], BranchForm, payload_c)))
-//@   loop 2 invariant dom(gammaNameTypesCtx) == remove(old(dom(gammaNameTypesCtx)), p.from_c.Ident)
-//@   loop 2 invariant (forall k int :: 0 <= k && k <= idx ==> !remove(old(dom(gammaNameTypesCtx)), p.from_c.Ident)[p.branches[k].payload_c.Ident] &&
+//@   loop[C05] 1 invariant dom(gammaNameTypesCtx) == old(dom(gammaNameTypesCtx))
+//@   loop[C05] 1 invariant (forall k int :: 0 <= k && k <= idx ==> lin(p.branches[k].continuation_e, old(dom(gammaNameTypesCtx)), addr(p.branches[k], BranchForm, payload_c)))
+//@   loop[C05] 2 invariant dom(gammaNameTypesCtx) == remove(old(dom(gammaNameTypesCtx)), p.from_c.Ident)
+//@   loop[C05] 2 invariant (forall k int :: 0 <= k && k <= idx ==> !remove(old(dom(gammaNameTypesCtx)), p.from_c.Ident)[p.branches[k].payload_c.Ident] &&
 //@        lin(p.branches[k].continuation_e, add(remove(old(dom(gammaNameTypesCtx)), p.from_c.Ident), p.branches[k].payload_c.Ident), providerShadowName))
 
 //@ contract (*CallForm).typecheckForm
 //@   loop 1 invariant 1 <= i && i <= len(p.parameters)
-//@   loop 1 invariant (forall x string :: has(gammaNameTypesCtx, x) ==> old(dom(gammaNameTypesCtx))[x])
-//@   loop 1 invariant (forall j int :: 1 <= j && j < i ==> !p.parameters[j].IsSelf && old(dom(gammaNameTypesCtx))[p.parameters[j].Ident] && !has(gammaNameTypesCtx, p.parameters[j].Ident))
-//@   loop 1 invariant (forall j int, k int :: 1 <= j && j < k && k < i ==> p.parameters[j].Ident != p.parameters[k].Ident)
-//@   loop 1 invariant (forall x string :: old(dom(gammaNameTypesCtx))[x] ==> has(gammaNameTypesCtx, x) || (exists j int :: 1 <= j && j < i && p.parameters[j].Ident == x))
+//@   loop[C05] 1 invariant (forall x string :: has(gammaNameTypesCtx, x) ==> old(dom(gammaNameTypesCtx))[x])
+//@   loop[C05] 1 invariant (forall j int :: 1 <= j && j < i ==> !p.parameters[j].IsSelf && old(dom(gammaNameTypesCtx))[p.parameters[j].Ident] && !has(gammaNameTypesCtx, p.parameters[j].Ident))
+//@   loop[C05] 1 invariant (forall j int, k int :: 1 <= j && j < k && k < i ==> p.parameters[j].Ident != p.parameters[k].Ident)
+//@   loop[C05] 1 invariant (forall x string :: old(dom(gammaNameTypesCtx))[x] ==> has(gammaNameTypesCtx, x) || (exists j int :: 1 <= j && j < i && p.parameters[j].Ident == x))
 //@   loop 2 invariant 0 <= i && i <= len(p.parameters)
-//@   loop 2 invariant (forall x string :: has(gammaNameTypesCtx, x) ==> old(dom(gammaNameTypesCtx))[x])
-//@   loop 2 invariant (forall j int :: 0 <= j && j < i ==> !p.parameters[j].IsSelf && old(dom(gammaNameTypesCtx))[p.parameters[j].Ident] && !has(gammaNameTypesCtx, p.parameters[j].Ident))
-//@   loop 2 invariant (forall j int, k int :: 0 <= j && j < k && k < i ==> p.parameters[j].Ident != p.parameters[k].Ident)
-//@   loop 2 invariant (forall x string :: old(dom(gammaNameTypesCtx))[x] ==> has(gammaNameTypesCtx, x) || (exists j int :: 0 <= j && j < i && p.parameters[j].Ident == x))
+//@   loop[C05] 2 invariant (forall x string :: has(gammaNameTypesCtx, x) ==> old(dom(gammaNameTypesCtx))[x])
+//@   loop[C05] 2 invariant (forall j int :: 0 <= j && j < i ==> !p.parameters[j].IsSelf && old(dom(gammaNameTypesCtx))[p.parameters[j].Ident] && !has(gammaNameTypesCtx, p.parameters[j].Ident))
+//@   loop[C05] 2 invariant (forall j int, k int :: 0 <= j && j < k && k < i ==> p.parameters[j].Ident != p.parameters[k].Ident)
+//@   loop[C05] 2 invariant (forall x string :: old(dom(gammaNameTypesCtx))[x] ==> has(gammaNameTypesCtx, x) || (exists j int :: 0 <= j && j < i && p.parameters[j].Ident == x))
 
 // ---------------------------------------------------------------------------------------------
 // C14: names. Two names are the same name if both are bound to run-time channels and the channels coincide,
@@ -269,7 +269,7 @@ package process
 //@ spec formTree(f Form) bool = f != nil && flo(f) <= fhi(f) &&
 //@    (is(f, ReceiveForm) ==> fkid(ReceiveForm(f).continuation_e, f)) &&
 //@    (is(f, BranchForm) ==> fkid(BranchForm(f).continuation_e, f)) &&
-//@    (is(f, CaseForm) ==> (forall i int :: 0 <= i && i < len(CaseForm(f).branches) ==> CaseForm(f).branches[i] != nil && fkid(Form(CaseForm(f).branches[i]), f)) &&
+//@    (is(f, CaseForm) ==> (forall i int :: 0 <= i && i < len(CaseForm(f).branches) ==> CaseForm(f).branches[i] != nil && fkid(Form(CaseForm(f).branches[i]), f) && fkid(CaseForm(f).branches[i].continuation_e, Form(CaseForm(f).branches[i]))) &&
 //@                         (forall i int, j int :: 0 <= i && i < j && j < len(CaseForm(f).branches) ==> fhi(Form(CaseForm(f).branches[i])) < flo(Form(CaseForm(f).branches[j])))) &&
 //@    (is(f, NewForm) ==> fkid(NewForm(f).body, f) && fkid(NewForm(f).continuation_e, f) && fhi(NewForm(f).body) < flo(NewForm(f).continuation_e)) &&
 //@    (is(f, SplitForm) ==> fkid(SplitForm(f).continuation_e, f)) &&
@@ -423,10 +423,10 @@ package process
 
 // cut rule: what the two halves of the split context are when the spawned term and the continuation are checked
 //@ contract (*NewForm).typecheckForm
-//@   callsite C05.cutCallLeft process.Form.typecheckForm#1: dom(gammaLeftNameTypesCtx) == fnIdents(p.body)
-//@   callsite C05.cutCallRight process.Form.typecheckForm#2: dom(gammaRightNameTypesCtx) == add(minusSet(old(dom(gammaNameTypesCtx)), fnIdents(p.body)), p.new_name_c.Ident)
-//@   callsite C05.cutLeft process.Form.typecheckForm#3: dom(gammaLeftNameTypesCtx) == fnIdents(p.body)
-//@   callsite C05.cutRight process.Form.typecheckForm#4: dom(gammaRightNameTypesCtx) == add(minusSet(old(dom(gammaNameTypesCtx)), fnIdents(p.body)), p.new_name_c.Ident)
+//@   callsite[C05] C05.cutCallLeft process.Form.typecheckForm#1: dom(gammaLeftNameTypesCtx) == fnIdents(p.body)
+//@   callsite[C05] C05.cutCallRight process.Form.typecheckForm#2: dom(gammaRightNameTypesCtx) == add(minusSet(old(dom(gammaNameTypesCtx)), fnIdents(p.body)), p.new_name_c.Ident)
+//@   callsite[C05] C05.cutLeft process.Form.typecheckForm#3: dom(gammaLeftNameTypesCtx) == fnIdents(p.body)
+//@   callsite[C05] C05.cutRight process.Form.typecheckForm#4: dom(gammaRightNameTypesCtx) == add(minusSet(old(dom(gammaNameTypesCtx)), fnIdents(p.body)), p.new_name_c.Ident)
 
 // C06 at the cut: the context handed to the spawned term was checked against the spawned channel's type, the
 // spawned channel's type against the enclosing provider's type, and checking proceeds only if both passed.
@@ -516,8 +516,10 @@ package process
 //@   loop[C09] 2 invariant tcReady(gammaNameTypesCtx, providerType, labelledTypesEnv, sigma) && ready(types.SessionType(clientSelectLabelType), dom(labelledTypesEnv), vals(labelledTypesEnv))
 //@ contract (*CallForm).typecheckForm
 //@   loop[C09] 1 invariant argsFrame() && gammaReady(gammaNameTypesCtx, dom(labelledTypesEnv), vals(labelledTypesEnv))
+//@   loop[C09] 1 invariant keptNewForm(Form(p))
 //@   loop[C09] 1 decreases len(p.parameters) - i
 //@   loop[C09] 2 invariant argsFrame() && gammaReady(gammaNameTypesCtx, dom(labelledTypesEnv), vals(labelledTypesEnv))
+//@   loop[C09] 2 invariant keptNewForm(Form(p))
 //@   loop[C09] 2 decreases len(p.parameters) - i
 
 // ---- C09: the cut rule
@@ -559,7 +561,7 @@ package process
 //@ macro envD(g *GlobalEnvironment) Set[string] = defNames(deref(g.Types), len(deref(g.Types)))
 //@ macro envV(g *GlobalEnvironment) Arr[string]types.LabelledType = defVals(deref(g.Types), len(deref(g.Types)))
 //@ macro namesShape(ns []Name) bool = forall k int :: 0 <= k && k < len(ns) ==> (ns[k].Type == nil || shapeOK(ns[k].Type)) && !callArg(addrof(ns[k]))
-//@ macro bodyOK(b Form) bool = b != nil && formOK(b) && formTree(b) && uninit(b)
+//@ macro bodyOK(b Form) bool = b != nil && formOK(b) && formTree(b)
 //@ macro fdefsShape(fs []FunctionDefinition) bool = forall k int :: 0 <= k && k < len(fs) ==> bodyOK(fs[k].Body) && (fs[k].Type == nil || shapeOK(fs[k].Type)) && namesShape(fs[k].Parameters)
 //@ macro procsShape(ps []*Process) bool = forall k int :: 0 <= k && k < len(ps) ==> ps[k] != nil && bodyOK(ps[k].Body) && (ps[k].Type == nil || shapeOK(ps[k].Type)) && namesShape(ps[k].Providers)
 //@ macro genvShape(g *GlobalEnvironment) bool = g != nil && g.Types != nil && g.FunctionDefinitions != nil && defsShape(deref(g.Types)) && fdefsShape(deref(g.FunctionDefinitions))
